@@ -6,6 +6,8 @@ import SV.Proofs.C08Cache
 namespace SV.Props.C08
 open SV.Model.C08 SV.Spec.C08 SV.Proofs.C08
 
+def pP (n : String) (t : Nat) : PEntry := .inline ⟨some n, some "query", false, t⟩
+
 /-! ## effective parameters -/
 
 /-- The repaired merge is exactly the effective-parameter list of the statement. -/
@@ -143,6 +145,34 @@ theorem C08_security (cfg : Cfg) (d : Doc) (path method : String) (od : OpDef) (
       · intro ht hn
         exact processSchemes_http _ _ _ _ s hs hact ht hn h
 
+def wSecDoc : Doc :=
+  { paths := [("/a", .inline ⟨[], [("get", ⟨some "getA", [.inline ⟨some "key", some "query", false, 5⟩], .absent, none⟩),
+                                  ("post", ⟨none, [], .absent, some ["k2"]⟩)]⟩)],
+    files := [⟨[], []⟩], links := [],
+    schemes := [⟨"k1", some "apiKey", some "key", some "query"⟩, ⟨"k2", some "http", none, none⟩],
+    globalSec := ["k1"] }
+
+/-- non-vacuity of `C08_security`: GET /a defines the api key itself (nothing is added), POST /a overrides the global
+    requirement and gets the `Authorization` header -/
+example : (iterate Cfg.repaired wSecDoc).1 =
+    [.ok ⟨"/a", "get", [], [], [], [⟨some "key", some "query", false, 5⟩], []⟩,
+     .ok ⟨"/a", "post", [], [httpAuthParam], [], [], []⟩] := by decide
+
+/-! ## references to parameters -/
+
+def chainDoc (n : Nat) : Doc :=
+  { paths := [("/a", .inline ⟨[.ref "" "C0"], [("get", ⟨none, [], .absent, none⟩)]⟩)],
+    files := [⟨(List.range n).map (fun i => (s!"C{i}", PEntry.ref "" s!"C{i + 1}")) ++ [(s!"C{n}", pP "p" 7)], []⟩],
+    links := [], schemes := [], globalSec := [] }
+
+/-- `resolve_all` with `RECURSION_DEPTH_LIMIT - 8`: a chain of up to 9 references ends in the parameter definition;
+    the 10th reference is handed on unresolved, the operation is reported (the entry has no `in`), not dropped -/
+theorem reference_depth_witness :
+    (iterate Cfg.repaired (chainDoc 3)).1 = [.ok ⟨"/a", "get", [], [], [], [⟨some "p", some "query", false, 7⟩], []⟩] ∧
+    (iterate Cfg.repaired (chainDoc 8)).1 = [.ok ⟨"/a", "get", [], [], [], [⟨some "p", some "query", false, 7⟩], []⟩] ∧
+    (iterate Cfg.repaired (chainDoc 9)).1 = [.err "/a" (some "get") .key] := by
+  decide
+
 /-! ## every documented operation is offered or reported -/
 
 /-- C08, "none is silently dropped" (TypeError handled like the other schema errors): the generator never dies, and
@@ -175,7 +205,7 @@ theorem C08_total_each (cfg : Cfg) (ht : cfg.typeErr = .repaired) (d : Doc) (p :
     obtain ⟨rfl, rfl⟩ := hl
     exact ⟨e, hit⟩
 
-/-! ### the tree as found: a non-object parameter entry kills the generator (F32) -/
+/-! ### the tree as found: a non-object parameter entry kills the generator (FC08a) -/
 
 def wTypeDoc : Doc :=
   { paths := [("/a", .inline ⟨[], [("get", ⟨some "getA", [.junk], .absent, none⟩)]⟩),
@@ -367,9 +397,7 @@ theorem C08_scope_root (cfg : Cfg) (d : Doc) (s : St) (hr : Reach cfg d s) : s.s
   have h := (reach_calm cfg d s hr).susp
   simp [St.stack, St.top, h]
 
-/-! ### the tree as found: look-ups resolve outside the path item's scope (F15, F15b, F15c, F33) -/
-
-def pP (n : String) (t : Nat) : PEntry := .inline ⟨some n, some "query", false, t⟩
+/-! ### the tree as found: look-ups resolve outside the path item's scope (F15, F15b, F15c, FC08b) -/
 
 /-- root `schema.json`, path item of `/a` in `sub/items.json`, its parameters in `sub/common.json`; a second
     `common.json` next to the root document holds different definitions under the same pointers -/
@@ -447,7 +475,7 @@ def wPopulateDoc : Doc :=
               ("/c", .inline ⟨[], [("get", ⟨some "getC", [], .absent, none⟩)]⟩)],
     files := [⟨[], []⟩], links := [], schemes := [], globalSec := [] }
 
-/-- F33: as found, one unresolvable path item makes `get_operation_by_id("getC")` raise RefResolutionError, then
+/-- FC08b: as found, one unresolvable path item makes `get_operation_by_id("getC")` raise RefResolutionError, then
     OperationNotFound, for an operation iteration offers - unless `schema["/c"]["get"]` was used before: the answer
     depends on the history. Repaired: the operation, in both orders. -/
 theorem populate_asFound_witness :
